@@ -441,7 +441,8 @@ func ruleSchemaOPC(r *Run) {
 		have := map[string]bool{}
 		for i := 0; i < st.NumFields(); i++ {
 			t := parseXMLTag(st.Tag(i))
-			if t.Attr {
+			// encoding/xml ignores unexported fields whatever their tag says
+			if t.Attr && st.Field(i).Exported() {
 				have[t.Name] = true
 			}
 		}
